@@ -145,6 +145,18 @@ CLAIMS = {
         "(a non-constant polynomial weight is non-zero); heavy coefficient functions folded above threshold; 0<xi<=x for the TMC point.",
         "DESIGN.md section 3, C16",
     ),
+    "C17": (
+        "folding of apply_pdf on symbolic operators with opaque PDF/coupling callables; comparison with the documented contraction",
+        "Decides: the result and error returned by ESFResult/EXSResult.apply_pdf equal sum over stored orders of [alpha_s(xiR sqrt Q2)/(4 pi)]^k "
+        "alpha(xiR sqrt Q2)^l ln(1/xiR^2)^i ln(1/xiF^2)^j sum_{provided p, n} O[p,n] xf_p(x_n, xiF^2 Q2)/x_n (symbolic operators, six order keys, "
+        "partons the PDF lacks never queried; x, Q2, y echoed; unset Q2 rejected) - hence linear in the PDF; Output routes pids, xgrid, alpha_s, "
+        "alpha_qed, xiR, xiF to every point in order and skips None observables/metadata; apply_pdf_theory uses a_s(muR^2, nf_to=NfFF) x 4 pi for "
+        "FFNS/FFN0/FONLL-*, a_s(muR^2, nf_to=nf_default(muR^2, atlas((m_q k_q)^2; Qref^2, nfref))) x 4 pi for ZM-VFNS, builds Couplings from the "
+        "card's couplings/order/masses, takes alphaqed, XIR, XIF from the card in order, and raises on an unknown scheme. NOT decided: eko's running.",
+        "Trusted: CPython ast; yadsa partial evaluator; numpy.einsum('aj,aj') = double contraction; the eko.io.runcards/eko.couplings API shape "
+        "summarised in rules/c17.py.",
+        "DESIGN.md section 3, C17",
+    ),
     "C18": (
         "interprocedural argument-vector demand vs. supply; closed-world call/whitelist check of njit bodies; small type inference",
         "Decides the static clauses of C18: for every RSL part of every partonic channel/order (folded through the MRO), every splitting "
